@@ -154,7 +154,7 @@ func (h *harness) modelVerdictWith(c *niCase, comp compiler.Name, cs ctxSpec, wh
 			reps = append(reps, vh.Hex(d.a[i])+","+vh.Hex(d.e[i])+","+vh.Hex(d.z[i]))
 			svs += b2i(sv(i, d.e[i]))
 		}
-		return h.ask(fmt.Sprintf("RFV %s %s %s", ctxf, strings.Join(reps, ";"), svs))
+		return h.ask(fmt.Sprintf("RFV %s %d %s %s", ctxf, c.L, strings.Join(reps, ";"), svs))
 	}
 }
 
@@ -386,6 +386,9 @@ func (h *harness) niCase(c *niCase, comp compiler.Name, variant int, r *vh.Rng, 
 	if comp == randfischlin.Name {
 		h.leadingZeros(c, variant, cs, proof, orig)
 	}
+	if comp != fiatshamir.Name && (strings.HasPrefix(c.id, "schnorr/") || h.thorough) {
+		h.targetMisses(c, comp, variant, cs, r)
+	}
 	// forged Fiat–Shamir proofs: a simulated transcript whose challenge was derived without
 	// the commitment / without the statement / in no transcript at all must be rejected
 	if comp == fiatshamir.Name {
@@ -437,6 +440,85 @@ func (h *harness) leadingZeros(c *niCase, variant int, cs ctxSpec, proof []byte,
 		}
 	}
 	h.res.Distribution["challenge-leading-zeros/no-candidate"]++
+}
+
+// targetMisses: a harness-side Fischlin prover (same search as the library's, hashes with
+// crypto/sha3 over the model's key / CRS extraction) builds a proof that hits every hash
+// target — it must be accepted — and, per repetition i, a proof in which exactly repetition
+// i is a valid sigma transcript whose hash misses the target — each must be rejected.
+func (h *harness) targetMisses(c *niCase, comp compiler.Name, variant int, cs ctxSpec, r *vh.Rng) {
+	name, ops := cs.history()
+	ctxf := fmt.Sprintf("%s %s %s %s", vh.Hex(name), strings.Join(ops, ";"), vh.Hex(cs.sid()), vh.Hex([]byte(c.pname)))
+	var call string
+	reps := 16
+	b, t := 8, 13
+	if comp == fischlin.Name {
+		p := h.ask(fmt.Sprintf("FIP %d %d", c.rho, c.ss))
+		if _, err := fmt.Sscanf(p, "%d,%d", &b, &t); err != nil {
+			return
+		}
+		reps = int(c.rho)
+		call = h.ask(fmt.Sprintf("FIK %s %s %d", ctxf, vh.Hex(c.stmt[0]), c.rho))
+	} else {
+		call = h.ask(fmt.Sprintf("RFK %s", ctxf))
+	}
+	f := strings.Split(call, ",")
+	if len(f) != 3 {
+		return
+	}
+	key := cshake(vh.UnHex(f[0]), vh.UnHex(f[1]), 32)
+	sid := cs.sid()
+	var commonH []byte
+	var lastA []byte
+	hit := func(aall []byte, i int, e, z []byte) bool {
+		if comp == fischlin.Name {
+			if commonH == nil || !bytes.Equal(lastA, aall) {
+				d := sha3.Sum256(bytes.Join([][]byte{key, c.stmt[0], aall, sid}, nil))
+				commonH, lastA = d[:], aall
+			}
+			d := sha3.Sum256(bytes.Join([][]byte{commonH, make([]byte, 8), le64(uint64(i)), e, z}, nil))
+			nb := b/8 + 1
+			d[nb-1] &= byte((1 << (b % 8)) - 1)
+			for _, x := range d[:nb] {
+				if x != 0 {
+					return false
+				}
+			}
+			return true
+		}
+		var buf []byte
+		for idx, part := range [][]byte{key, aall, le64(uint64(i)), e, z} {
+			buf = append(buf, le64(uint64(idx))...)
+			buf = append(buf, le64(uint64(len(part)))...)
+			buf = append(buf, part...)
+		}
+		d := sha3.Sum256(buf)
+		return d[0] == 0
+	}
+	chal := func(j int) ([]byte, []byte) {
+		if comp == fischlin.Name {
+			full := make([]byte, c.L)
+			full[c.L-1], full[c.L-2] = byte(j), byte(j>>8)
+			el := (t + 7) / 8
+			return full[c.L-el:], full
+		}
+		e := make([]byte, c.L)
+		copy(e, r.Bytes(7))
+		return e, e
+	}
+	var honest []byte
+	var misses [][]byte
+	if p := vh.Safely(func() { honest, misses = c.grind(comp, reps, hit, chal) }); p != "" || honest == nil {
+		h.res.Distribution["target-miss/not-built"]++
+		return
+	}
+	orig := c.decode(comp, honest)
+	h.checkOne("harness-made-proof", c, comp, variant, cs, 0, honest, orig, "1")
+	for i, m := range misses {
+		if m != nil {
+			h.checkOneKey("hash-target-missed", fmt.Sprintf("hash-target-missed-rep%d/%s/%s", i, short(comp), c.id), c, comp, variant, cs, 0, m, orig, "0")
+		}
+	}
 }
 
 func sortedKeys(m map[string][]byte) []string {
@@ -640,7 +722,11 @@ func (h *harness) replay(path string) {
 		h.res.Note("cannot read replay file: %v", err)
 		return
 	}
+	key := "replay"
 	for _, line := range strings.Split(string(b), "\n") {
+		if k, ok := strings.CutPrefix(line, "key: "); ok {
+			key = strings.TrimSpace(k)
+		}
 		if !strings.HasPrefix(line, "case: ") {
 			continue
 		}
@@ -666,9 +752,17 @@ func (h *harness) replay(path string) {
 			// the expectation: same context and statement and unchanged values => accept
 			ctx, _ := cs.build()
 			_ = ctx
-			h.res.Note("replay verdict implementation=%s", implVerdict(c, comp, cs, which, proof))
+			iv := implVerdict(c, comp, cs, which, proof)
+			h.res.Note("replay verdict implementation=%s", iv)
+			h.res.Count("replay", strings.Join(f, " "), true)
 			if d := c.decode(comp, proof); d != nil {
-				h.res.Note("replay verdict model=%s", h.modelVerdict(c, comp, cs, which, d))
+				mv := h.modelVerdict(c, comp, cs, which, d)
+				h.res.Note("replay verdict model=%s", mv)
+				if mv != iv {
+					h.res.Mismatch(vh.Mismatch{ID: "replay", Kind: "corr", Key: key, Detail: "model verdict " + mv + ", implementation " + iv, Case: strings.Join(f, " "), PropFail: iv == "1" && mv == "0", What: "compiled verifier vs model on the replayed case"})
+				}
+			} else if iv == "1" {
+				h.res.Mismatch(vh.Mismatch{ID: "replay", Kind: "prop", Key: key, Detail: "undecodable proof accepted", Case: strings.Join(f, " "), PropFail: true, What: "proof decoding"})
 			}
 		default:
 			h.res.Note("replay of %q cases: re-run the check with the same seed", f[0])
